@@ -197,7 +197,7 @@ def kvn2dict(string):
         if not line:
             continue
         if line.startswith("COMMENT"):
-            comments[i] = line.split("COMMENT")[-1].strip()
+            comments[i] = line[len("COMMENT") :].strip()
             continue
 
         key, _, value = line.partition("=")
